@@ -451,7 +451,7 @@ func Grouped(a Annot) []*Shape {
 }
 
 // countKinds are the position-distinguishable field types of the field-count family.
-var countKinds = []string{"int", "string", "float64", "named", "ptr-int", "slice-string", "opt-int", "duration", "array", "map", "any"}
+var countKinds = []string{"int", "string", "float64", "named", "ptr-int", "slice-string", "opt-int", "duration", "array", "map", "iface"}
 
 // FieldCount: n fields cycling through kinds and private/public visibility.
 func FieldCount(a Annot, n int) *Shape {
